@@ -46,6 +46,7 @@ type c09State struct {
 }
 
 type c09Frame struct {
+	phis map[*ssa.Phi]ssa.Value // phi -> value selected on the executed path
 	fn   *ssa.Function
 	args map[*ssa.Parameter]string // class of parameter values
 	pass map[*ssa.Parameter]string // "conn"/"msg" identity of parameters
@@ -82,6 +83,9 @@ func (s *c09State) keyClass(v ssa.Value, fr *c09Frame, prev *ssa.BasicBlock) str
 			}
 		}
 	case *ssa.Phi:
+		if e, ok := fr.phis[x]; ok {
+			return s.keyClass(e, fr, nil)
+		}
 		for i, p := range x.Block().Preds {
 			if p == prev {
 				return s.keyClass(x.Edges[i], fr, nil)
@@ -169,8 +173,19 @@ func (s *c09State) exec(fr *c09Frame) {
 	blk := fr.fn.Blocks[0]
 	var prev *ssa.BasicBlock
 	mem := map[*ssa.Alloc]ssa.Value{} // last value stored to a local on this path
+	if fr.phis == nil {
+		fr.phis = map[*ssa.Phi]ssa.Value{}
+	}
 	for s.bad == "" {
 		for _, in := range blk.Instrs {
+			if ph, ok := in.(*ssa.Phi); ok {
+				for i, p := range blk.Preds {
+					if p == prev {
+						fr.phis[ph] = ph.Edges[i]
+					}
+				}
+				continue
+			}
 			s.steps++
 			if s.steps > 5000 {
 				s.bad = "interpretation did not terminate (cycle in the dispatch code)"
